@@ -30,15 +30,32 @@ KNOWN_SUFFIX = "@weighted-nonunit"
 # ----------------------------------------------------------------------------- building the real network
 
 
-def build(net, weights=None):
+class MyH(xgi.Hypergraph):
+    """a trivial subclass (class-variant family)"""
+    pass
+
+
+CLASSES = {None: xgi.Hypergraph, "Hypergraph": xgi.Hypergraph, "MyH": MyH, "SimplicialComplex": xgi.SimplicialComplex}
+
+
+def build(net, weights=None, cls=None):
     """Hypergraph with nodes/edges in the listed order; an edge listed with no members is produced by
-    adding a one-member edge and removing the member with remove_empty=False (public API only)"""
-    H = xgi.Hypergraph()
+    adding a one-member edge and removing the member with remove_empty=False (public API only).
+    Tuple labels are added one at a time (add_node / add_edge(members, idx=…)): the bulk forms read a 2-tuple as
+    (node, attributes).  cls="SimplicialComplex": the listed edges must be a downward-closed family listed faces first
+    (add_simplex(members, idx=…) then adds nothing else)"""
+    H = CLASSES[cls]()
     nodes = [dec_id(n) for n in net["nodes"]]
-    H.add_nodes_from(nodes)
+    if any(isinstance(n, tuple) for n in nodes):
+        for n in nodes:
+            H.add_node(n)
+    else:
+        H.add_nodes_from(nodes)
     for e, ms in net["edges"]:
         e = dec_id(e)
-        if ms:
+        if cls == "SimplicialComplex":
+            H.add_simplex([dec_id(x) for x in ms], idx=e)
+        elif ms:
             H.add_edge([dec_id(x) for x in ms], idx=e)
         else:
             tmp = nodes[0] if nodes else "__tmp__"
@@ -221,7 +238,9 @@ def make_weight(c, H):
 
 def impl(c):
     fn, has_sparse, n_index = FUNCS[c["f"]]
-    H = build(c["net"], c.get("weights") if c["f"] == "normalized_hypergraph_laplacian" else None)
+    H = build(c["net"], c.get("weights") if c["f"] == "normalized_hypergraph_laplacian" else None, cls=c.get("cls"))
+    if c.get("cls") and net_sets(net_of(H)) != net_sets(c["net"]):
+        raise RuntimeError("class-variant case does not rebuild to the listed network")  # becomes an outcome, never exit 2
     kw = kwargs_of(c)
     if "wt" in c:
         kw["weight"] = make_weight(c, H)
@@ -319,6 +338,20 @@ def pred(c, r, rng=None):
         if r["out"] != "ok":
             fails.append((f + "-raised", f"{r['out']}: {r.get('msg')}"))
             return fails
+    if (f == "normalized" and r["out"] == "undefined" and has_empty_edge(c["net"]) and isinstance(bf_normalized(c), list)
+            and not r.get("_sparse_view")):
+        # Witness pattern of the known finding `sparse-dense-differ@empty-edge`: the DENSE result is all-NaN (0 * inf at the
+        # empty edge's entry 1/0 of De^-1) while the SPARSE result is a finite matrix.  Only the variant problems that say
+        # exactly this get the listed class; the remaining clauses are then evaluated on the sparse matrix.
+        sub = sparse_only(c)
+        if sub is not None:
+            out = []
+            for k, d in fails:
+                if k == "sparse-dense-differ" and "outcome ok vs undefined" in d:
+                    out.append((k + EMPTY_EDGE_SUFFIX, d + " [network has an edge without members: dense result is all-NaN, sparse result is finite]"))
+                else:
+                    out.append((k, d))
+            return out + [(k, d + " [on the sparse result; the dense one is all-NaN]") for k, d in pred(c, sub, rng)]
     if r["out"] != "ok":
         # a call may fail only where the quantity is undefined / the documented error applies
         if f == "laplacian":
@@ -359,7 +392,10 @@ def pred(c, r, rng=None):
                         return fails
                 else:
                     want = tbl.get((json.dumps(n), json.dumps(e)), c["wdef"]) if member else 0
-                    if mat[i][j] != want:
+                    # float-valued callbacks (predicate only, outside the model): the code stores them with dtype=int, so
+                    # the truncated value is accepted as well as the value itself - but the same in every variant
+                    # (`problems` above holds sparse-dense-differ / index-variant-differs)
+                    if mat[i][j] != want and not (c.get("float_wt") and mat[i][j] == math.trunc(want)):
                         fails.append(("incidence-weight-callback-entry",
                                       f"entry (node {n!r}, edge {e!r}) = {mat[i][j]}, member = {member}, weight(node, edge, H) = "
                                       f"{tbl.get((json.dumps(n), json.dumps(e)), c['wdef'])}"))
@@ -520,6 +556,28 @@ def pred(c, r, rng=None):
     return fails
 
 
+def has_empty_edge(net):
+    return any(not ms for _, ms in net["edges"])
+
+
+EMPTY_EDGE_SUFFIX = "@empty-edge"
+
+
+def sparse_only(c):
+    """the sparse, index=True result of a normalised-Laplacian case in the format of call_variants; None unless it is a
+    finite matrix"""
+    try:
+        H = build(c["net"], c.get("weights"), cls=c.get("cls"))
+        r = one_call(xgi.normalized_hypergraph_laplacian, H, {"weighted": c["weighted"], "sparse": True, "index": True}, 1)
+    except Exception:  # noqa
+        return None
+    if r["out"] != "ok":
+        return None
+    r["problems"] = []
+    r["_sparse_view"] = True
+    return r
+
+
 def flatten(x):
     if isinstance(x, list):
         out = []
@@ -537,15 +595,16 @@ def edge_weights(c):
 
 def bf_normalized(c, unweighted_degree=False):
     """Zhou, Huang, Schölkopf (2006): I - Dv^{-1/2} H W De^{-1} H^T Dv^{-1/2} with d(v) = sum_e w(e) h(v,e),
-    delta(e) = |e|; returns the float matrix, or "err:lib" (isolated node / zero weighted degree), or "undefined" (empty edge).
+    delta(e) = |e|; returns the float matrix, or "err:lib" (isolated node / zero weighted degree).  An edge WITHOUT members has
+    h(v, e) = 0 for every v: it is in no term of sum_e w(e) h(u,e) h(v,e) / delta(e) and of d(v), so it is skipped (the matrix
+    of the network without that edge).
     unweighted_degree=True: the same formula with d(v) = number of edges containing v (used only to recognise the witness
     pattern of the known finding)"""
     nodes, edges = members_of(c)
     if any(all(n not in ms for _, ms in edges) for n in nodes):
         return "err:lib"
-    if any(len(ms) == 0 for _, ms in edges):
-        return "undefined"
-    w = edge_weights(c)
+    w = [wj for (_, ms), wj in zip(edges, edge_weights(c)) if ms]
+    edges = [(e, ms) for e, ms in edges if ms]
     dv = [sum(((Fraction(1) if unweighted_degree else wj) for (_, ms), wj in zip(edges, w) if n in ms), Fraction(0)) for n in nodes]
     if any(d <= 0 for d in dv):
         return "err:lib"
@@ -626,6 +685,30 @@ def weight_case(rng, net, order):
     return {"f": "incidence_matrix", "net": net, "order": order, "wt": wt, "wdef": rng.choice([97, 50, -40])}
 
 
+def weight_case_float(rng, net, order):
+    """incidence_matrix with a FLOAT-valued `weight=` callback (predicate on the implementation only; the model has integer
+    tables): non-integral values of both signs, so that a container which keeps the fraction and one which truncates it differ"""
+    wt = [[n, e, rng.choice([0.5, -0.5, 1.5, 2.25, -2.75, 0.9, -1.1, 3.0, 7.5])] for n in net["nodes"] for e, _ in net["edges"]]
+    return {"f": "incidence_matrix", "net": net, "order": order, "wt": wt, "wdef": rng.choice([97.5, -40.25]), "float_wt": True}
+
+
+def impl_only(ctx, cases):
+    """cases outside the model: implementation + predicate, no driver"""
+    for c in cases:
+        try:
+            r = impl(c)
+        except core.Infra:
+            raise
+        except Exception as ex:  # noqa
+            r = {"out": "err:" + type(ex).__name__, "msg": str(ex)[:200]}
+        ctx.evaluations += 1
+        ctx.stats["fn:" + c["f"] + " (predicate only)"] += 1
+        if nontrivial(c, r):
+            ctx.nontrivial.add(jhash([c, r]))
+        for cls, detail in pred(c, r) or []:
+            ctx.violation(c["f"], cls, c, detail=detail)
+
+
 def max_shared(net):
     ms = [set(map(json.dumps, m)) for _, m in net["edges"]]
     best = 0
@@ -686,9 +769,9 @@ def grid(rng, net, full=True):
     # normalised Laplacian: the network as it is (isolated nodes => XGIError) and with its isolated nodes dropped
     used = {json.dumps(x) for _, ms in net["edges"] for x in ms}
     net2 = {"nodes": [n for n in net["nodes"] if json.dumps(n) in used], "edges": net["edges"]}
-    if any(not ms for _, ms in net["edges"]):
-        return cases  # an empty edge has delta(e) = 0: the normalised Laplacian is undefined (0 * inf)
-    for nt in ([net] if net2 == net else [net, net2]):
+    # (a network with edges but no node at all - only empty edges - is not drawn: both variants raise ValueError from a
+    # (0,0) @ (m,m) product; sparse == dense holds there)
+    for nt in [t for t in ([net] if net2 == net else [net, net2]) if t["nodes"] or not t["edges"]]:
         cases.append({"f": "normalized_hypergraph_laplacian", "net": nt, "weighted": False, "weights": [None] * len(nt["edges"])})
         ws = [rng.choice(WEIGHT_POOL + [None, None, None]) for _ in nt["edges"]]
         if rng.random() < 0.05 and ws:
@@ -861,16 +944,51 @@ def conclude12(ctx, ok, dis):
                           detail="; ".join(ctx.broken)[:500], kind="unproven", broken=ctx.broken)
 
 
+def replay_family(ctx, path, c):
+    """replay of a held-object script or of a large-network case (implementation + predicate only; the proofs are still
+    built and audited)"""
+    _CTX[0] = ctx
+    ok = build_and_audit(ctx, "XgiModel.Props.C12", ["XgiModel.C12.Drive"])
+    if c["kind"] == "held-object":
+        fails, _ = run_held(c, ctx)
+        for cls, detail in fails:
+            ctx.violation(c["fn"], cls, c, detail=detail)
+    else:
+        for f, cls, kw, detail in run_regime(c, ctx):
+            if "fn" not in c or (f == c["fn"]):
+                ctx.violation(f, cls, c, detail=detail)
+    if not ok and not ctx.violations:
+        ctx.violation("model-tie", "unproven", {"broken": ctx.broken}, detail="; ".join(ctx.broken)[:500], kind="unproven", broken=ctx.broken)
+    ctx.rule = f"replay of {path}"
+
+    def write_replay_evidence(prop, ev):
+        d = os.path.join(OUT, "replay-evidence")
+        os.makedirs(d, exist_ok=True)
+        with open(os.path.join(d, prop + ".json"), "w") as f:
+            json.dump(jsonable(ev), f, indent=1)
+    saved, core.write_evidence = core.write_evidence, write_replay_evidence
+    try:
+        return finish(ctx, trusted_base=TRUSTED)
+    finally:
+        core.write_evidence = saved
+
+
 def replay(ctx, path):
     """one case through the same path as a run (build + audit, predicate, correspondence, known findings, verdict).  The
     record of a replay goes to out/replay-evidence/C12.json: evidence/C12.json always describes a full run."""
     j = json.load(open(path))
     c = j["case"] if "case" in j else j
+    if isinstance(c, dict) and c.get("kind") in ("held-object", "regime"):
+        return replay_family(ctx, path, c)
     if not (isinstance(c, dict) and c.get("f") in FUNCS):
         raise core.Infra(f"{path}: not a C12 case (no replayable input: a `no-failing-input-found` record names broken obligations only)")
     _CTX[0] = ctx
     ok = build_and_audit(ctx, "XgiModel.Props.C12", ["XgiModel.C12.Drive"])
-    dis = run_fn(ctx, "C12", [c], impl, pred=pred, compare=compare, nontrivial=nontrivial)
+    if predicate_only(c):
+        impl_only(ctx, [c])  # outside the model: predicate on the implementation only
+        dis = []
+    else:
+        dis = run_fn(ctx, "C12", [c], impl, pred=pred, compare=compare, nontrivial=nontrivial)
     known = [k for k in load_known() if k["property"] == ctx.prop]
     if (dis or not ok) and not any(not is_known(ctx, v, known) for v in ctx.violations):
         ctx.violation("model-tie", "unproven", {"broken": ctx.broken, "example": ctx.extra.get("disagreements", [])[:1]},
@@ -887,6 +1005,602 @@ def replay(ctx, path):
         return finish(ctx, trusted_base=TRUSTED)
     finally:
         core.write_evidence = saved
+
+
+# ----------------------------------------------------------------------------- second-round families (review 2)
+# held-object / state across calls, regime (large network), tuple labels, class variants.  All of them evaluate the
+# statement's clauses on the implementation only (no model call): the driver reads int/str IDs and small networks.
+
+def net_of(H):
+    """the network as the views of the object show it"""
+    return {"nodes": [enc_id(n) for n in H.nodes],
+            "edges": [[enc_id(e), [enc_id(x) for x in H.edges.members(e)]] for e in H.edges]}
+
+
+def net_sets(net):
+    return ([json.dumps(n) for n in net["nodes"]], [(json.dumps(e), sorted(json.dumps(x) for x in ms)) for e, ms in net["edges"]])
+
+
+def is_tuple_net(net):
+    return any(isinstance(n, list) for n in net["nodes"]) or any(isinstance(e, list) for e, _ in net["edges"])
+
+
+def predicate_only(c):
+    """cases outside the model correspondence: float callbacks; tuple labels (the driver answers bad-op on them); class
+    variants; the normalised Laplacian of a network with an empty edge (the model answers `undefined`, the sparse code and the
+    repaired dense code return the matrix of the network without that edge)"""
+    return bool(c.get("float_wt") or c.get("cls") or is_tuple_net(c["net"])
+                or (c["f"] == "normalized_hypergraph_laplacian" and has_empty_edge(c["net"])))
+
+
+def one_call(fn, H, kw, n_index):
+    """ONE call fn(H, **kw) -> result dict in the format of call_variants (dense matrix, shape, index label lists)"""
+    out, val = _call(fn, H, **kw)
+    if out != "ok":
+        return {"out": out, "msg": str(val)[:160]}
+    try:
+        if kw.get("index"):
+            if not (isinstance(val, tuple) and len(val) == 1 + n_index):
+                return {"out": "bad-return", "msg": f"index=True returned {type(val).__name__}"}
+            mat, dicts = val[0], list(val[1:])
+        else:
+            mat, dicts = val, None
+        if isinstance(mat, tuple):
+            return {"out": "bad-return", "msg": "index=False returned a tuple"}
+        arr = dense(mat)
+        r = {"out": "ok", "shape": list(arr.shape), "mat": arr.tolist()}
+        if "sparse" in kw and is_sparse(mat) != bool(kw["sparse"]):
+            return {"out": "bad-return", "msg": f"sparse={kw['sparse']} returned {type(mat).__name__}"}
+        if not _finite(r["mat"]):
+            return {"out": "undefined"}
+        if dicts is not None:
+            r["dicts"] = [labels(d) for d in dicts]
+        return r
+    except Exception as ex:  # noqa
+        return {"out": "err:" + type(ex).__name__, "msg": str(ex)[:160]}
+
+
+def same_result(a, b):
+    if a["out"] != b["out"]:
+        return False
+    if a["out"] != "ok":
+        return True
+    return a["shape"] == b["shape"] and _same(a["mat"], b["mat"]) and a.get("dicts") == b.get("dicts")
+
+
+# ---- 1. held object: one Hypergraph, several option tuples, edits in between
+
+HELD_LISTS = {1: [[1], [2], [3]], 2: [[1, 2], [2, 1], [1, 3], [2, 3]], 3: [[1, 2, 3], [3, 2, 1], [1, 1, 2]]}
+HELD_WEIGHTS = {1: [["1"], ["2"], ["1/2"]], 2: [["1", "1"], ["1", "2"], ["1/2", "3"], ["0", "1"]],
+                3: [["1", "1", "1"], ["1", "2", "3"], ["2", "1/2", "0"]]}
+
+
+def held_base(rng, f):
+    """option tuple A (fields as in the ordinary cases + sparse/index)"""
+    s = SHORT[f]
+    a = {"index": True}
+    if FUNCS[f][1]:
+        a["sparse"] = rng.random() < 0.25
+    if s in ("incidence", "degree", "profile"):
+        a["order"] = rng.choice([None, None, 1, 2])
+        if s == "incidence":
+            a["wconst"] = None
+    elif s == "adjacency":
+        a.update(order=rng.choice([None, 1, 2]), s=rng.choice([1, 1, 2]), weighted=rng.random() < 0.5)
+    elif s == "laplacian":
+        a.update(order=rng.choice([1, 2, 2, 3]), rescale=rng.random() < 0.3)
+    elif s == "multiorder":
+        k = rng.choice([1, 2, 2, 3])
+        a.update(orders=rng.choice(HELD_LISTS[k]), weights=rng.choice(HELD_WEIGHTS[k]), rescale=rng.random() < 0.3)
+    elif s == "normalized":
+        a["weighted"] = rng.random() < 0.5
+    elif s == "tensor":
+        a.update(order=rng.choice([1, 2]), normalized=rng.random() < 0.5)
+    return a
+
+
+def held_variants(f, a):
+    """every option tuple that differs from `a` in exactly ONE argument"""
+    out = []
+
+    def alt(key, vals):
+        for v in vals:
+            if key in a and v != a[key]:
+                out.append({**a, key: v})
+    alt("order", [None, 0, 1, 2, 3] if SHORT[f] not in ("laplacian", "tensor") else [0, 1, 2, 3])
+    alt("s", [1, 2, 3])
+    for key in ("weighted", "rescale", "normalized", "sparse", "index"):
+        alt(key, [False, True])
+    alt("wconst", [None, 2, -3])
+    if "orders" in a:
+        alt("orders", HELD_LISTS[len(a["orders"])])
+        alt("weights", HELD_WEIGHTS[len(a["orders"])])
+    return out
+
+
+def held_kwargs(f, o):
+    c = {"f": f, **{k: v for k, v in o.items() if k not in ("sparse", "index", "wconst")}}
+    kw = kwargs_of(c)
+    if o.get("wconst") is not None:
+        kw["weight"] = (lambda v: (lambda node, edge, H: v))(o["wconst"])
+    for k in ("sparse", "index"):
+        if k in o:
+            kw[k] = o[k]
+    return kw
+
+
+def apply_ops(H, ops):
+    for op in ops:
+        if op[0] == "remove_edge":
+            H.remove_edge(dec_id(op[1]))
+        elif op[0] == "add_edge":
+            H.add_edge([dec_id(x) for x in op[1]], idx=dec_id(op[2]))
+        elif op[0] == "remove_node":
+            H.remove_node(dec_id(op[1]))
+        else:
+            raise ValueError(op)
+
+
+def held_script(rng, f, net, weights):
+    """a replayable call/edit script for ONE held object: A, B1, B2 (one argument changed each), a count-preserving edit
+    (stale.count_preserving_edit_hg, recorded as explicit operations), A and B again in random order, an ordinary edit (add an
+    edge / remove a node), A and B again"""
+    from ..stale import count_preserving_edit_hg
+    a = held_base(rng, f)
+    vs = held_variants(f, a)
+    bs = rng.sample(vs, min(2, len(vs)))
+    steps = [{"call": a}] + [{"call": b} for b in bs]
+    Hs = build(net, weights)
+    before = {json.dumps(enc_id(e)): sorted(json.dumps(enc_id(x)) for x in Hs.edges.members(e)) for e in Hs.edges}
+    try:
+        done = count_preserving_edit_hg(rng, Hs)
+    except Exception:  # noqa
+        done = False
+    ops = []
+    if done:
+        after = {json.dumps(enc_id(e)): [enc_id(x) for x in Hs.edges.members(e)] for e in Hs.edges}
+        ops = [["remove_edge", json.loads(e)] for e in before if e not in after]
+        ops += [["add_edge", ms, json.loads(e)] for e, ms in after.items() if e not in before]
+    if ops:
+        again = [a] + [rng.choice(bs)] if bs else [a]
+        rng.shuffle(again)
+        steps += [{"edit": ops}] + [{"call": o} for o in again]
+    nodes = list(Hs.nodes)
+    if nodes and rng.random() < 0.35:
+        ops2 = [["remove_node", enc_id(rng.choice(nodes))]]
+    else:
+        ms = rng.sample(nodes, min(len(nodes), rng.randint(2, 3))) if nodes else []
+        ms = [enc_id(x) for x in ms] + (["h2-new-node"] if rng.random() < 0.3 or not ms else [])
+        ops2 = [["add_edge", ms, "h2-new-edge"]]
+    again = [a] + ([rng.choice(bs)] if bs else [])
+    rng.shuffle(again)
+    steps += [{"edit": ops2}] + [{"call": o} for o in again]
+    c = {"kind": "held-object", "fn": f, "net": net, "steps": steps}
+    if weights is not None:
+        c["weights"] = weights
+    return c
+
+
+def run_held(case, ctx=None):
+    """execute a held-object script; every call on the held object is compared with the same call on H.copy() and, when it
+    returns index maps, judged by the predicate `pred` against the network the views show at that moment"""
+    f = case["fn"]
+    fn, _, n_index = FUNCS[f]
+    fails = []
+    H = build(case["net"], case.get("weights"))
+    wmap = {json.dumps(e): w for (e, _), w in zip(case["net"]["edges"], case.get("weights") or [None] * len(case["net"]["edges"]))}
+    prev, edited, any_ok = None, False, False
+    for i, st in enumerate(case["steps"]):
+        if "edit" in st:
+            try:
+                apply_ops(H, st["edit"])
+            except Exception as ex:  # noqa
+                fails.append(("held-object-edit-raised", f"step {i} {st['edit']}: {type(ex).__name__}: {ex}"))
+                return fails, any_ok
+            edited = True
+            continue
+        o = st["call"]
+        kw = held_kwargs(f, o)
+        held = one_call(fn, H, kw, n_index)
+        fresh = one_call(fn, H.copy(), held_kwargs(f, o), n_index)
+        if ctx is not None:
+            ctx.evaluations += 2
+        any_ok = any_ok or held["out"] == "ok"
+        if not same_result(held, fresh):
+            cls = ("stale-result-after-edit" if edited else "stale-result-other-options" if prev is not None and prev != o
+                   else "held-object-differs-from-copy")
+            fails.append((cls, f"step {i}: {f}(H, **{o}) on the held object = {json.dumps(held)[:220]} but on H.copy() = "
+                               f"{json.dumps(fresh)[:220]}" + (f"; previous call on H had {prev}" if prev is not None else "")))
+        if o.get("index") and held["out"] != "bad-return":
+            net = net_of(H)
+            c = {"f": f, "net": net, **{k: v for k, v in o.items() if k not in ("sparse", "index", "wconst")}}
+            if o.get("wconst") is not None:
+                c.update(wt=[], wdef=o["wconst"])
+            if f == "normalized_hypergraph_laplacian":
+                c["weights"] = [wmap.get(json.dumps(e)) for e, _ in net["edges"]]
+            try:
+                sub = pred(c, {**held, "problems": []})
+            except Exception as ex:  # noqa
+                sub = [("held-object-malformed-result", f"{type(ex).__name__}: {ex}")]
+            # (the classes of the open known finding are reported by the ordinary family, with its own witness pattern)
+            fails += [(k, f"step {i}, {o}: " + d) for k, d in sub if not k.endswith(KNOWN_SUFFIX) and not k.endswith(EMPTY_EDGE_SUFFIX)]
+        elif held["out"] == "bad-return":
+            fails.append(("index-return-shape", f"step {i}, {o}: {held['msg']}"))
+        prev, edited = o, False
+    return fails, any_ok
+
+
+def held_family(ctx, rng, n):
+    for _ in range(n):
+        net = random_network(rng)
+        net = {"nodes": net["nodes"], "edges": [e for e in net["edges"] if e[1]]}
+        for f in FUNCS:
+            weights = None
+            if f == "normalized_hypergraph_laplacian":
+                weights = [rng.choice(WEIGHT_POOL + [None, None]) for _ in net["edges"]]
+            try:
+                case = held_script(rng, f, net, weights)
+                fails, any_ok = run_held(case, ctx)
+            except Exception as ex:  # noqa
+                case, fails, any_ok = {"kind": "held-object", "fn": f, "net": net}, [("held-object-crashed", f"{type(ex).__name__}: {ex}")], False
+            ctx.stats["held-object sequences"] += 1
+            ctx.stats["held-object sequences:" + f] += 1
+            if any_ok:
+                ctx.nontrivial.add(jhash(case))
+            for cls, detail in fails:
+                ctx.violation(f, cls, case, detail=detail)
+
+
+# ---- 2. regime: one large network
+
+REGIME_S = [1, 2, 129, 130, 131]
+BIG = 2 ** 53 + 1
+
+
+def regime_net(p):
+    """deterministic from the parameters: n_nodes labels (ints of both signs, strings, 2**53+1 and 2**53+2 - equal as
+    floats -, the decimal string of 2**53+1), `parallel` edges on the pair (2**53+1, "v0") among n_other random edges of
+    1-5 members (some containing that pair, duplicates, singletons); some labels stay isolated; edge IDs int/str and one
+    integer above 2**53"""
+    import random
+    g = random.Random(p["gen_seed"])
+    n = max(3, p["n_nodes"])
+    pool = [BIG, "v0", BIG + 1, str(BIG), 0, -1, "0"]
+    i = 1
+    while len(pool) < n:
+        pool.append(i if i % 3 else "n%d" % i)
+        i += 1
+    nodes = pool[:n]
+    usable = nodes[: max(3, n - 3)]  # the last three labels stay isolated (when n > 5)
+    edges = [[BIG, "v0"] for _ in range(p["parallel"])]
+    for _ in range(p["n_other"]):
+        k = min(len(usable), g.choice([1, 2, 2, 2, 3, 3, 4, 5]))
+        ms = g.sample(usable, k)
+        r = g.random()
+        if r < 0.08 and k >= 2:
+            ms = [BIG, "v0"] + [x for x in ms if x not in (BIG, "v0")][: k - 2]
+        elif r < 0.16 and len(edges) > p["parallel"]:
+            ms = list(g.choice(edges[p["parallel"]:]))
+        edges.append(ms)
+    g.shuffle(edges)
+    g.shuffle(nodes)
+    ids = []
+    for j in range(len(edges)):
+        ids.append(BIG + 2 if j == 5 else ("e%d" % j if j % 7 == 3 else j))
+    return nodes, list(zip(ids, edges))
+
+
+def _first_diff(a, b):
+    idx = np.argwhere(~np.isclose(np.asarray(a, dtype=float), np.asarray(b, dtype=float), rtol=1e-9, atol=1e-9))
+    return tuple(int(x) for x in idx[0]) if len(idx) else None
+
+
+def run_regime(p, ctx=None):
+    """the statement's clauses on a large network against a brute-force construction from members() (numpy int64/float64
+    arrays filled by loops over the member sets; no incidence product)"""
+    fails = []
+    nodes0, edges0 = regime_net(p)
+    H = xgi.Hypergraph()
+    for x in nodes0:
+        H.add_node(x)
+    for e, ms in edges0:
+        H.add_edge(ms, idx=e)
+    nodes = list(H.nodes)
+    elist = list(H.edges)
+    mem = {e: set(H.edges.members(e)) for e in elist}
+    pos = {x: i for i, x in enumerate(nodes)}
+    N = len(nodes)
+    nodes_enc = [enc_id(x) for x in nodes]
+
+    def brute(order):
+        es = [e for e in elist if order is None or len(mem[e]) == order + 1]
+        B = np.zeros((N, len(es)), dtype=np.int64)
+        C = np.zeros((N, N), dtype=np.int64)
+        for j, e in enumerate(es):
+            for a in mem[e]:
+                B[pos[a], j] = 1
+                for b in mem[e]:
+                    if a != b:
+                        C[pos[a], pos[b]] += 1
+        return es, B, C
+
+    def variants(f, kw):
+        fn, has_sparse, n_index = FUNCS[f]
+        ref, problems = call_variants(ctx, fn, H, kw, has_sparse, n_index)
+        if ctx is not None:
+            ctx.evaluations += 1
+            ctx.stats["fn:" + f + " (large network, predicate only)"] += 1
+        for k, d in problems:
+            fails.append((f, k, kw, d))
+        if ref["out"] != "ok":
+            fails.append((f, SHORT[f] + "-raised", kw, f"{ref['out']}: {ref.get('msg')}"))
+            return None, None
+        return np.array(ref["mat"]), ref.get("dicts")
+
+    def guard(f, kw, body):
+        try:
+            body()
+        except Exception as ex:  # noqa
+            fails.append((f, SHORT[f] + "-malformed-result", kw, f"{type(ex).__name__}: {ex}"))
+
+    def lab(i):
+        return repr(nodes[i])
+
+    def lap_like(f, kw, mat, want, psd=True):
+        scale = max(1.0, float(np.abs(want).max()) if want.size else 1.0)
+        rs = np.abs(mat.sum(axis=1))
+        if rs.size and rs.max() > TOL * scale * N:
+            i = int(rs.argmax())
+            fails.append((f, SHORT[f] + "-row-sum-nonzero", kw, f"row of node {lab(i)} sums to {mat[i].sum()}"))
+        if not np.allclose(mat, mat.T, rtol=1e-9, atol=1e-9):
+            fails.append((f, SHORT[f] + "-not-symmetric", kw, f"entries {_first_diff(mat, mat.T)} differ from their transposes"))
+        elif psd and N:
+            lo = float(np.linalg.eigvalsh((mat + mat.T) / 2).min())
+            if lo < -1e-7 * scale * N:
+                fails.append((f, SHORT[f] + "-not-psd", kw, f"least eigenvalue {lo}"))
+        d = _first_diff(mat, want) if mat.shape == want.shape else "shape"
+        if d is not None:
+            fails.append((f, SHORT[f] + "-not-textbook", kw, f"shape {mat.shape}; first difference at {d}: "
+                          + (f"nodes ({lab(d[0])}, {lab(d[1])}): {mat[d]} vs textbook {want[d]}" if d != "shape" else f"expected {want.shape}")))
+
+    deg, Cs = {}, {}
+    for order in (None, 1, 2):
+        es, B, C = brute(order)
+        deg[order], Cs[order] = B.sum(axis=1), C
+        es_enc = [enc_id(e) for e in es]
+
+        def incidence(order=order, es=es, B=B, es_enc=es_enc):
+            kw = {"order": order}
+            mat, dicts = variants("incidence_matrix", kw)
+            if mat is None:
+                return
+            if list(mat.shape) != [N, len(es)]:
+                fails.append(("incidence_matrix", "incidence-shape", kw, f"shape {mat.shape} for {N} nodes and {len(es)} edges"))
+            elif dicts != [nodes_enc, es_enc]:
+                fails.append(("incidence_matrix", "incidence-index-maps", kw, "index maps are not the node / edge labels in view order"))
+            elif not np.array_equal(mat, B):
+                i, j = np.argwhere(mat != B)[0]
+                fails.append(("incidence_matrix", "incidence-entry", kw, f"entry (node {lab(i)}, edge {es[j]!r}) = {mat[i, j]}, member = {bool(B[i, j])}"))
+        if order != 2:
+            guard("incidence_matrix", {"order": order}, incidence)
+
+        def degree(order=order, B=B):
+            kw = {"order": order}
+            mat, dicts = variants("degree_matrix", kw)
+            if mat is None:
+                return
+            if list(mat.shape) != [N] or dicts != [nodes_enc]:
+                fails.append(("degree_matrix", "degree-shape", kw, f"shape {mat.shape}, index map wrong = {dicts != [nodes_enc]}"))
+            elif not np.array_equal(mat, B.sum(axis=1)):
+                i = int(np.argwhere(mat != B.sum(axis=1))[0][0])
+                fails.append(("degree_matrix", "degree-value", kw, f"degree of {lab(i)} = {mat[i]}, memberships = {B.sum(axis=1)[i]}"))
+        guard("degree_matrix", {"order": order}, degree)
+
+        if order == 2:
+            continue
+        for weighted in (False, True):
+            for s in REGIME_S + [max(1, int(C.max()))]:
+                kw = {"order": order, "s": s, "weighted": weighted}
+
+                def adjacency(kw=kw, C=C, s=s, weighted=weighted):
+                    mat, dicts = variants("adjacency_matrix", kw)
+                    if mat is None:
+                        return
+                    want = np.where(C >= s, C if weighted else 1, 0)
+                    if list(mat.shape) != [N, N] or dicts != [nodes_enc]:
+                        fails.append(("adjacency_matrix", "adjacency-shape", kw, f"shape {mat.shape}, index map wrong = {dicts != [nodes_enc]}"))
+                    elif np.diag(mat).any():
+                        fails.append(("adjacency_matrix", "adjacency-diagonal-nonzero", kw, f"diagonal {np.diag(mat)[np.diag(mat) != 0][:3]}"))
+                    elif not np.array_equal(mat, mat.T):
+                        fails.append(("adjacency_matrix", "adjacency-not-symmetric", kw, f"{_first_diff(mat, mat.T)}"))
+                    elif not np.array_equal(mat, want):
+                        i, k = np.argwhere(mat != want)[0]
+                        fails.append(("adjacency_matrix", "adjacency-count", kw,
+                                      f"({lab(i)},{lab(k)}) = {mat[i, k]}, shared edges of order {kw['order']} = {C[i, k]}, s = {s}, weighted = {weighted}"))
+                guard("adjacency_matrix", kw, adjacency)
+
+    def profile():
+        mat, dicts = variants("intersection_profile", {"order": None})
+        if mat is None:
+            return
+        want = np.array([[len(mem[a] & mem[b]) for b in elist] for a in elist], dtype=np.int64).reshape(len(elist), len(elist))
+        if mat.shape != want.shape or dicts != [[enc_id(e) for e in elist]]:
+            fails.append(("intersection_profile", "profile-shape", {"order": None}, f"shape {mat.shape}"))
+        elif not np.array_equal(mat, want):
+            j, l = np.argwhere(mat != want)[0]
+            fails.append(("intersection_profile", "profile-entry", {"order": None}, f"({elist[j]!r},{elist[l]!r}) = {mat[j, l]}, |intersection| = {want[j, l]}"))
+    guard("intersection_profile", {"order": None}, profile)
+
+    def clique():
+        mat, dicts = variants("clique_motif_matrix", {})
+        if mat is None:
+            return
+        if mat.shape != (N, N) or not np.array_equal(mat, Cs[None]):
+            d = _first_diff(mat, Cs[None]) if mat.shape == (N, N) else None
+            fails.append(("clique_motif_matrix", "clique-count", {}, f"shape {mat.shape}; " + (f"({lab(d[0])},{lab(d[1])}) = {mat[d]}, shared edges = {Cs[None][d]}" if d else "")))
+    guard("clique_motif_matrix", {}, clique)
+
+    for d in (1, 2):
+        for normalized in ((False, True) if d == 1 else (False,)):
+            kw = {"order": d, "normalized": normalized}
+
+            def tensor(kw=kw, d=d, normalized=normalized):
+                mat, dicts = variants("adjacency_tensor", kw)
+                if mat is None:
+                    return
+                want = np.zeros((N,) * (d + 1))
+                for e in elist:
+                    if len(mem[e]) == d + 1:
+                        for t in itertools.permutations([pos[x] for x in mem[e]]):
+                            want[t] = 1.0 / math.factorial(d) if normalized else 1
+                if mat.shape != want.shape or dicts != [nodes_enc]:
+                    fails.append(("adjacency_tensor", "tensor-shape", kw, f"shape {mat.shape}"))
+                elif not np.allclose(mat, want, rtol=0, atol=TOL):
+                    t = _first_diff(mat, want)
+                    fails.append(("adjacency_tensor", "tensor-entry", kw, f"entry {[lab(i) for i in t]} = {mat[t]}, expected {want[t]}"))
+            guard("adjacency_tensor", kw, tensor)
+
+    Ld = {}
+    for d in (1, 2):
+        for resc in (False, True):
+            want = (d * np.diag(deg[d]) - Cs[d]).astype(float) / (d if resc else 1)
+            Ld[d, resc] = want
+            kw = {"order": d, "rescale_per_node": resc}
+
+            def lap(kw=kw, want=want):
+                mat, dicts = variants("laplacian", kw)
+                if mat is None:
+                    return
+                if dicts != [nodes_enc]:
+                    fails.append(("laplacian", "laplacian-index-map", kw, "index map is not the node labels in view order"))
+                lap_like("laplacian", kw, mat.astype(float), want)
+            guard("laplacian", kw, lap)
+    for resc in (False, True):
+        for ws in ([1.0, 1.0], [0.5, 3.0]):
+            kw = {"orders": [1, 2], "weights": ws, "rescale_per_node": resc}
+
+            def multi(kw=kw, ws=ws, resc=resc):
+                mat, dicts = variants("multiorder_laplacian", kw)
+                if mat is None:
+                    return
+                want = np.zeros((N, N))
+                for d, w in zip([1, 2], ws):
+                    if deg[d].sum():
+                        want += w * Ld[d, resc] / (deg[d].sum() / N)
+                if dicts != [nodes_enc]:
+                    fails.append(("multiorder_laplacian", "multiorder-shape", kw, "index map is not the node labels in view order"))
+                lap_like("multiorder_laplacian", kw, mat.astype(float), want)
+            guard("multiorder_laplacian", kw, multi)
+
+    # normalised Laplacian: the same network without its isolated nodes (they raise XGIError, checked by the small cases)
+    def normalized():
+        nonlocal H, N, nodes, pos, nodes_enc
+        iso = [x for x in nodes if not any(x in m for m in mem.values())]
+        H = H.copy()
+        H.remove_nodes_from(iso)
+        nodes = list(H.nodes)
+        N, pos, nodes_enc = len(nodes), {x: i for i, x in enumerate(nodes)}, [enc_id(x) for x in nodes]
+        M, dv = np.zeros((N, N)), np.zeros(N)
+        for e in elist:
+            for a in mem[e]:
+                dv[pos[a]] += 1
+                for b in mem[e]:
+                    M[pos[a], pos[b]] += 1.0 / len(mem[e])
+        want = np.eye(N) - M / np.sqrt(np.outer(dv, dv))
+        for weighted in (False, True):
+            kw = {"weighted": weighted}
+            mat, dicts = variants("normalized_hypergraph_laplacian", kw)
+            if mat is None:
+                continue
+            if dicts != [nodes_enc]:
+                fails.append(("normalized_hypergraph_laplacian", "normalized-shape", kw, "index map is not the node labels in view order"))
+            sub = []
+            f0 = len(fails)
+            lap_like("normalized_hypergraph_laplacian", kw, mat.astype(float), want)
+            # (row sums of the normalised Laplacian are not zero: drop that clause)
+            fails[f0:] = [x for x in fails[f0:] if not x[1].endswith("-row-sum-nonzero")]
+    guard("normalized_hypergraph_laplacian", {}, normalized)
+    return fails
+
+
+def regime_family(ctx, rng, n):
+    for _ in range(n):
+        p = {"kind": "regime", "gen_seed": rng.randrange(10 ** 9), "n_nodes": rng.randint(70, 76),
+             "parallel": rng.randint(130, 136), "n_other": rng.randint(35, 50)}
+        try:
+            fails = run_regime(p, ctx)
+        except Exception as ex:  # noqa
+            fails = [("regime", "large-network-check-crashed", {}, f"{type(ex).__name__}: {ex}")]
+        ctx.stats["large networks (>=70 nodes, >=130 parallel edges, labels above 2**53)"] += 1
+        ctx.nontrivial.add(jhash(p))
+        seen = set()
+        for f, cls, kw, detail in fails:
+            if (f, cls) in seen:
+                continue
+            seen.add((f, cls))
+            # smallest parameter set of the same generator that still shows the same failure
+            best = p
+            for small in ({**p, "n_nodes": 3, "n_other": 1}, {**p, "n_nodes": 6, "n_other": 4}, {**p, "n_nodes": 20, "n_other": 15}):
+                try:
+                    if any(f2 == f and c2 == cls for f2, c2, _, _ in run_regime(small)):
+                        best = small
+                        break
+                except Exception:  # noqa
+                    pass
+            ctx.violation(f, cls, {**best, "fn": f, "kwargs": kw,
+                                   "how": "harness.props.c12.regime_net(case) -> (nodes, [(edge id, members)]); build with add_node / add_edge(members, idx=id) and call fn(H, **kwargs)"},
+                          detail=detail)
+
+
+# ---- 3. tuple labels and 4. class variants (ordinary cases, predicate only)
+
+TUPLE_NODES = [(1, 2), (2, 1), ("a",), (1, (2, 3)), ("a", "b"), (0,), (1, 2, 3), 5, "5", 0, ("0",), (BIG, 1)]
+TUPLE_EDGES = [(0, 0), ("e", 1), (1,), 0, "z", (2, (1,)), 1, ("z",), (1, 2), "0", (0,), (BIG,)]
+
+
+def tuple_network(rng):
+    nodes, edges = gen_hypergraph(rng, max_nodes=6, max_edges=6, max_size=4, labels=lambda k: rng.sample(TUPLE_NODES, k),
+                                  edge_ids=lambda m: rng.sample(TUPLE_EDGES, m))
+    if not any(isinstance(n, tuple) for n in nodes):
+        nodes.append((9, 9))
+    return enc(nodes, edges)
+
+
+def simplicial_network(rng):
+    """a downward-closed family as a SimplicialComplex shows it, faces listed before the simplices containing them"""
+    S = xgi.SimplicialComplex()
+    labs = rng.choice([[0, 1, 2, 3, 4], ["a", "b", "c", "d"], [3, "x", -1, 7, "y"]])
+    S.add_nodes_from(labs)
+    for _ in range(rng.randint(1, 3)):
+        S.add_simplex(rng.sample(labs, rng.randint(1, min(4, len(labs)))))
+    net = net_of(S)
+    net["edges"].sort(key=lambda em: len(em[1]))
+    return net
+
+
+def variant_cases(rng, net, cls, k):
+    cs = grid(rng, net, full=False)
+    keep = [c for c in cs if c["f"] == "normalized_hypergraph_laplacian"]
+    rest = [c for c in cs if c["f"] != "normalized_hypergraph_laplacian" and "wt" not in c]
+    cs = keep + rng.sample(rest, min(k, len(rest)))
+    if cls:
+        cs = [{**c, "cls": cls, **({"weights": [None] * len(c["weights"])} if c["f"] == "normalized_hypergraph_laplacian" else {})}
+              for c in cs]
+    return cs
+
+
+def label_and_class_cases(ctx, rng):
+    cases = []
+    for _ in range(ctx.n(6, 60)):
+        cs = variant_cases(rng, tuple_network(rng), None, 70)
+        ctx.stats["opt:tuple-label networks (predicate only)"] += 1
+        cases += cs
+    for _ in range(ctx.n(4, 40)):
+        cases += variant_cases(rng, simplicial_network(rng), "SimplicialComplex", 50)
+        net = random_network(rng)
+        cases += variant_cases(rng, net, "MyH", 50)
+        ctx.stats["opt:class-variant networks (SimplicialComplex + trivial subclass, predicate only)"] += 2
+    return cases
 
 
 TRUSTED = TRUSTED_COMMON + [
@@ -906,7 +1620,9 @@ def run(ctx):
                 "{None,0,1,2,3} plus every order > 3 present (and now and then an absent one), s in {1,2,3} plus {4..7} where a pair "
                 "shares >= 4 edges, weighted, rescale_per_node, 12 order lists with random rational weights (also wrong lengths, "
                 "negative), two `weight=` callbacks of incidence_matrix (non-symmetric integer tables over (node, edge) with a "
-                "default for other argument pairs; third argument must be H), edge weights for the normalised Laplacian (unit, "
+                "default for other argument pairs; third argument must be H) and, for a sample of the networks, one FLOAT-valued "
+                "callback (non-integral values; implementation + predicate only: all (sparse, index) variants equal, entry = the "
+                "value or its truncation at member pairs, 0 elsewhere), edge weights for the normalised Laplacian (unit, "
                 "non-unit, absent, 0), tensor orders 0-4; every case is run for every (sparse, index) combination; then "
                 "call/edit/call sequences for stale state.  evaluations = calls of the public functions; non-trivial = distinct "
                 "(case, result) whose network has an edge with >= 2 members and whose call returned a matrix; `opt:*` entries of "
@@ -936,6 +1652,18 @@ def run(ctx):
             ctx.stats["opt:normalized weighted=%s%s" % (c["weighted"], " nonunit" if c["weighted"] and any(w not in (None, "1") for w in c["weights"]) else "")] += 1
             if "0" in c["weights"]:
                 ctx.stats["opt:normalized weight 0"] += 1
+    # float-valued `weight=` callbacks: outside the model (integer tables) - implementation + predicate only: every
+    # (sparse, index) variant must return the same matrix (the property's sparse == dense clause for this argument)
+    fcases = [c for c in cases if predicate_only(c)]
+    cases = [c for c in cases if not predicate_only(c)]
+    ctx.stats["opt:normalized with an empty edge (predicate only)"] = sum(1 for c in fcases if c["f"] == "normalized_hypergraph_laplacian")
+    for net in nets[:: max(1, len(nets) // ctx.n(40, 400))]:
+        if net["edges"] and net["nodes"]:
+            fcases.append(weight_case_float(rng, net, rng.choice([None, None, 1, 2])))
+    ctx.stats["opt:weight-callback-float (predicate only)"] = sum(1 for c in fcases if c.get("float_wt"))
+    # tuple node labels / tuple edge IDs (built one at a time) and class variants (SimplicialComplex, a trivial subclass)
+    fcases += label_and_class_cases(ctx, rng)
+    impl_only(ctx, fcases)
     dis = []
     for i in range(0, len(cases), 20000):
         dis += run_fn(ctx, "C12", cases[i:i + 20000], impl, pred=pred, compare=compare, nontrivial=nontrivial)
@@ -962,12 +1690,17 @@ def run(ctx):
         "multiorder_laplacian": lambda H: _xgi.multiorder_laplacian(H, [1, 2], [1, 1], sparse=False),
         "normalized_hypergraph_laplacian": lambda H: _xgi.normalized_hypergraph_laplacian(H, sparse=False),
     }, ctx.n(40, 800))
+    # one held object, several option tuples, edits in between (a memo keyed on too few arguments); one large network
+    held_family(ctx, rng, ctx.n(40, 400))
+    regime_family(ctx, rng, ctx.n(1, 4))
     conclude12(ctx, ok, dis)
     shrink_violations(ctx)
     ctx.assumptions = [
         "labels int/str (bool/float IDs outside the model); networks satisfy Net.WF (what the views of a consistent Hypergraph show, C01)",
         "s >= 1; order None or >= 0; laplacian/multiorder orders are ints; `weight=` callbacks of incidence_matrix are integer-valued "
-        "functions of (node, edge) (the matrix has dtype=int; float callbacks are truncated by numpy: outside the model)",
+        "functions of (node, edge) (the matrix has dtype=int; float callbacks are truncated by numpy: outside the model - a sample of float-valued callbacks "
+        "is run through the predicate only, where sparse == dense == index variants is required and either the value or its "
+        "truncation is accepted as the entry)",
         "rescale_per_node with order 0 divides by zero: the model answers `undefined` and the implementation's NaN matrix (dense) / "
         "ZeroDivisionError (sparse) are both read as `undefined`; multiorder order lists containing 0 are generated only without rescaling",
         "normalised Laplacian: the model describes the code as it is (unweighted vertex degree also for weighted=True); the predicate "
